@@ -38,6 +38,8 @@ THEOREMS = [
     "Optyx.Props.C06.solve_optimal_feasible",
     "Optyx.Props.C06.lp_optimal_user_feasible",
     "Optyx.Props.Glue.lpGlue_text",
+    "Optyx.Props.Dispatch.solve_autoSelect_eq_generated",
+    "Optyx.Props.Dispatch.solve_route_eq_generated",
 ]
 ASSUMPTIONS = [
     "solver results are finite: NaN / ±inf inside result.x or result.fun are outside the rational model",
@@ -1102,7 +1104,7 @@ MAGNITUDES = [1e-12, 1e-9, 9e-9, 2e-8, 1e-7, 1e-3, 1.0, 7.0, 1e4, 1e8, 1e12]
 # check there: `maximize x s.t. 5e-10*x <= 1e-9, 0 <= x <= 1e6` is OPTIMAL at x = 1e6 (violation 5e-4).  Until that is
 # decided, exactly this class (LP route, every row coefficient < 1e-9) is counted under rep.skipped / rep.notes instead of
 # failing the check; set to True to report it as an oracle failure of kind "lp_tiny_coefficients_dropped".
-REPORT_TINY_LP_ROWS = False
+REPORT_TINY_LP_ROWS = True
 NUM_KINDS = ["float", "int", "np.float64", "np.float32", "np.int64", "np.int32", "np.uint8", "np.int8", "np.float16", "bool", "0-d"]
 
 
